@@ -175,6 +175,22 @@ func (p *prov) compute(v ssa.Value, d int) []string {
 		// address of a local: what it holds
 		return p.loadFrom(x, nil, d)
 	case *ssa.MakeSlice:
+		// a made slice with what is stored into its elements in this function
+		var elems []string
+		if refs := x.Referrers(); refs != nil {
+			for _, ref := range *refs {
+				if ia, ok := ref.(*ssa.IndexAddr); ok {
+					for _, rr := range *ia.Referrers() {
+						if st, ok := rr.(*ssa.Store); ok && st.Addr == ssa.Value(ia) {
+							elems = append(elems, p.origins(st.Val, d+1)...)
+						}
+					}
+				}
+			}
+		}
+		if len(elems) > 0 {
+			return []string{"make(" + typeShort(c, x.Type()) + "){" + strings.Join(uniq(elems), ",") + "}"}
+		}
 		return []string{"make(" + typeShort(c, x.Type()) + ")"}
 	case *ssa.MakeMap:
 		return []string{"make(" + typeShort(c, x.Type()) + ")"}
